@@ -539,8 +539,13 @@ def run_procpool_full(spec):
             def submit_one(x):
                 t = x.spec
                 w.log.add('submit.begin', label=x.label)
-                x.future = dl.download_file(BUCKET, x.key, x.dest, extra_args=dict(t.get('extra_args') or {}) or None,
-                                            expected_size=t.get('expected_size'))
+                try:
+                    x.future = dl.download_file(BUCKET, x.key, x.dest, extra_args=dict(t.get('extra_args') or {}) or None,
+                                                expected_size=t.get('expected_size'))
+                except Exception as e:  # noqa - rejected at call time (e.g. an argument outside the allow-list)
+                    x.submit_exc = e
+                    w.log.add('submit.end', label=x.label, error=repr(e))
+                    return
                 w.log.add('submit.end', label=x.label)
                 # a caller that waits in result() from the very start (the exit below returns only after the downloads are done)
                 monitor._waiting_result(x, 'pp.early_result')
